@@ -14,7 +14,7 @@ from dataclasses import dataclass, field
 
 from nmverif.oracle.attrtree import TNode
 
-BARE_RE = re.compile(r"^[A-Za-z_][A-Za-z0-9_']*$")
+BARE_RE = re.compile(r"^[A-Za-z_][A-Za-z0-9_']*\Z")
 
 
 class PathError(Exception):
@@ -220,7 +220,7 @@ def predict_rm(tree: TNode, segs: list[str]) -> Prediction:
 
 def has_dynamic(tree: TNode) -> bool:
     for k, v in tree.children.items():
-        if k.startswith("${"):
+        if k.startswith("\x00dyn:"):
             return True
         if v.kind == "set" and has_dynamic(v):
             return True
